@@ -42,6 +42,8 @@ pub enum Op {
     BadMagic { seed: u64 },
     /// one explicit file: must_err = the cut removed part of a payload
     Raw { kind: String, #[serde(with = "hexser")] bytes: Vec<u8>, must_err: bool },
+    /// one explicit file with a wrong magic number: must be rejected
+    RawMagic { kind: String, #[serde(with = "hexser")] bytes: Vec<u8> },
 }
 
 fn gen_cfg(_prop: &str, _tier: Tier, run_seed: u64) -> Value {
@@ -261,7 +263,10 @@ fn exec(ctx: &mut RunCtx, w: &mut World, op: &Op) -> Step<()> {
                         return ctx.violation("no_panic", format!("panic|{}|{}|{}", kind, p.file.rsplit('/').next().unwrap_or(""), strip_digits(&p.message)), format!("{}::read panicked on a wrong magic number", kind))
                     }
                     Ok(Ok(_)) => {
-                        refine(ctx, &kind, &c, true);
+                        let raw = serde_json::to_value(Op::RawMagic { kind: kind.clone(), bytes: c.clone() }).unwrap();
+                        if let Some(last) = ctx.trace_ops.last_mut() {
+                            *last = raw;
+                        }
                         return ctx.violation("wrong_magic_rejected", format!("{}|accepted_wrong_magic", kind), format!("{}::read accepted a file whose magic number is {}", kind, hex(&c[..4])));
                     }
                     Ok(Err(_)) => {}
@@ -270,6 +275,14 @@ fn exec(ctx: &mut RunCtx, w: &mut World, op: &Op) -> Step<()> {
             ctx.fault("wrong_magic");
             ctx.outcome("bad_magic", "ok", "");
             Ok(())
+        }
+        Op::RawMagic { kind, bytes } => {
+            ctx.probe("cases_evaluated");
+            match read_kind(kind, bytes) {
+                Err(p) => ctx.violation("no_panic", format!("panic|{}|{}|{}", kind, p.file.rsplit('/').next().unwrap_or(""), strip_digits(&p.message)), format!("{}::read panicked on a wrong magic number", kind)),
+                Ok(Ok(_)) => ctx.violation("wrong_magic_rejected", format!("{}|accepted_wrong_magic", kind), format!("{}::read accepted a file whose magic number is {}", kind, hex(&bytes[..bytes.len().min(4)]))),
+                Ok(Err(_)) => Ok(()),
+            }
         }
         Op::Raw { kind, bytes, must_err } => {
             let b = bytes.clone();
